@@ -30,7 +30,7 @@
 From stdpp Require Import gmap numbers list.
 From Coq Require Import ZArith.
 Require Import Model.Bytes Model.Bank Model.Valset Model.L2 Model.L2Fault.
-Require Import Proofs.L2Lemmas Proofs.DepositLemmas Proofs.C09Proofs Proofs.C07Proofs Proofs.C07Examples.
+Require Import Proofs.L2Lemmas Proofs.DepositLemmas Proofs.C09Proofs Proofs.C07Proofs Proofs.C07Examples Proofs.BankNonneg.
 
 (* Every well-formed deposit (any recipient bytes, any amount including 0, any payload) at the
    expected sequence from a current executor, under EVERY fault schedule confined to the guarded
@@ -114,6 +114,16 @@ Theorem C07_err_only_unguarded : ∀ c fe s m,
   ∃ i st, (finalize_deposit_f c fe s m).1 !! i = Some st ∧ guarded st = false ∧ is_Some (fault fe i).
 Proof. exact c07_err_only_unguarded. Qed.
 
+(* The hypothesis [funds_sane] costs nothing on reachable states: balances never become
+   negative along any history (every debit is checked, every credited amount is >= 0). *)
+Theorem C07_balances_never_negative : ∀ (c : cfg) (h : list msg) (s : l2state),
+  bank_nonneg (bk s) → bank_nonneg (bk (run c s h).1).
+Proof. exact run_nonneg. Qed.
+
+Theorem C07_funds_sane_reachable : ∀ (c : cfg) (h : list msg) (s : l2state) (m : fdep),
+  bank_nonneg (bk s) → funds_sane c (run c s h).1 m.
+Proof. exact reachable_funds_sane. Qed.
+
 (* Non-vacuity: guarded faults that really fire (a panic in MintCoins, an error in the transfer
    to the recipient, a panic inside a hook message) are absorbed into outcome (B). *)
 Theorem C07_example_mint_panic :
@@ -141,5 +151,7 @@ Print Assumptions C07_gas_bound_partial.
 Print Assumptions C07_unguarded_faults_refuted.
 Print Assumptions C07_unguarded_fault_exists.
 Print Assumptions C07_err_only_unguarded.
+Print Assumptions C07_balances_never_negative.
+Print Assumptions C07_funds_sane_reachable.
 Print Assumptions C07_example_mint_panic.
 Print Assumptions C07_example_hook_fault.
